@@ -283,6 +283,88 @@ def dirwalk_replay(ctx):
     ctx.notes['dirwalk_trees_replayed'] = len(rows)
 
 
+def proclog_extra(ctx):
+    """Beyond the listed properties: the process logging thread that wraps the sequential driver under --log-process
+    (common/process.py).  ProcLog.tla models the two threads and the message queue; TLC refutes NeverStuck for the code as
+    written (empty() then blocking get() is not atomic) and proves it, with termination, for a non-blocking take.  The
+    counterexample schedule is then replayed on the REAL ProcessLoggingThread through a scheduling proxy for the queue.
+    The outcome is recorded in the evidence only - it is not a verdict on C12."""
+    import queue
+    import threading
+    from TotalDepth.common import process as P
+    r = ctx.tlc_check('MC_ProcLog_coded', 'ProcLog', cfg_consts=dict(MaxMsgs='2', MaxWakes='2', AtomicDrain='FALSE'), invariants=['NeverStuck'],
+                      expect_ok=False, timeout=900)
+    ctx.tlc_check('MC_ProcLog_coded_safe', 'ProcLog', cfg_consts=dict(MaxMsgs='2', MaxWakes='2', AtomicDrain='FALSE'), invariants=['AtMostOnce', 'AllLogged'], timeout=900)
+    ctx.tlc_check('MC_ProcLog_atomic', 'ProcLog', cfg_consts=dict(MaxMsgs='2', MaxWakes='2', AtomicDrain='TRUE'),
+                  invariants=['NeverStuck', 'AtMostOnce', 'AllLogged'], properties=['Termination'], timeout=900)
+    note = dict(tlc_refutes_never_stuck=not r.ok(), counterexample_steps=len(r.trace))
+    # the queue operations of the counterexample, in order: who performs empty() / get()
+    sched = []
+    prev = None
+    for a, st in r.trace:
+        if prev is not None:
+            for who, pc in (('M', 'pcM'), ('L', 'pcL')):
+                if prev[pc] != st[pc] or (prev['q'] != st['q'] and a.startswith('<' + ('MWrite' if who == 'M' else 'LWrite'))):
+                    if prev[pc] in ('w_empty', 'w_loop') and a.startswith('<' + ('MWrite' if who == 'M' else 'LWrite')):
+                        sched.append((who, 'empty'))
+                    elif prev[pc] == 'w_get' and a.startswith('<' + ('MWrite' if who == 'M' else 'LWrite')):
+                        sched.append((who, 'get'))
+        prev = st
+    stuck = 'L' if r.trace and r.trace[-1][1]['pcL'] == 'w_get' else 'M'
+    sched.append((stuck, 'get'))
+    note['schedule'] = sched
+
+    class Controlled:
+        def __init__(self, schedule):
+            self.q, self.sched, self.cv, self.log = queue.Queue(), list(schedule), threading.Condition(), []
+
+        def _turn(self, op):
+            role = 'L' if isinstance(threading.current_thread(), P.ProcessLoggingThread) else 'M'
+            with self.cv:
+                while self.sched and self.sched[0] != (role, op):
+                    if not self.cv.wait(timeout=5):
+                        self.log.append(('TIMEOUT', role, op))
+                        break
+                if self.sched and self.sched[0] == (role, op):
+                    self.sched.pop(0)
+                self.log.append((role, op))
+                self.cv.notify_all()
+
+        def put(self, m):
+            self.q.put(m)
+
+        def empty(self):
+            self._turn('empty')
+            return self.q.empty()
+
+        def get(self):
+            self._turn('get')
+            return self.q.get()
+    c = Controlled(sched)
+    orig = P.process_queue
+    P.process_queue = c
+    try:
+        nmsg = r.trace[-1][1]['added'] if r.trace else 1
+        for k in range(nmsg):
+            P.add_message_to_queue('m%d' % (k + 1))
+        th = P.ProcessLoggingThread(args=(0.01,), kwargs={})
+        th.daemon = True
+        th.start()
+        joiner = threading.Thread(target=th.join, daemon=True)
+        joiner.start()
+        joiner.join(3.0)
+        note['join_blocked_after_3s'] = joiner.is_alive()
+        note['operations_observed'] = [list(x) for x in c.log][:20]
+        c.put('release')
+        joiner.join(5.0)
+        note['released_cleanly'] = not joiner.is_alive()
+    except Exception as e:
+        note['replay_error'] = '%s: %s' % (type(e).__name__, e)
+    finally:
+        P.process_queue = orig
+    ctx.notes['process_logging_thread'] = note
+
+
 def run(ctx):
     repo.setup()
     from ..core import quiet_logging
@@ -297,6 +379,7 @@ def run(ctx):
     from TotalDepth.util import DirWalk
     design(ctx)
     dirwalk_replay(ctx)
+    proclog_extra(ctx)
     rng = ctx.subrng('c12')
     wd = ctx.wdir('dirs')
     conv = {'RP66V1': RT.single_rp66v1_file_to_las, 'LIS': LT.single_lis_file_to_las, 'BIT': BT.single_bit_path_to_las_path}
